@@ -8,6 +8,7 @@ package chain
 import (
 	"context"
 	"errors"
+	"time"
 
 	"github.com/ava-labs/avalanchego/database"
 	"github.com/ava-labs/avalanchego/ids"
@@ -43,6 +44,11 @@ type ScriptAction struct {
 	Start   int64               `serialize:"true" json:"start"`
 	End     int64               `serialize:"true" json:"end"`
 	Nonce   uint64              `serialize:"true" json:"nonce"`
+	// Schedule control (not part of the encoding, no effect on the state): milliseconds slept inside StateKeys (the
+	// processor calls it in its synchronous loop, so it delays the enqueueing of this and all later transactions)
+	// and at the start of Execute (a slow task). The sequential model ignores both.
+	SleepKeys int `json:"sleepKeys,omitempty"`
+	SleepExec int `json:"sleepExec,omitempty"`
 }
 
 var _ hchain.Action = (*ScriptAction)(nil)
@@ -61,6 +67,9 @@ func (a *ScriptAction) Bytes() []byte {
 func (a *ScriptAction) ComputeUnits(hchain.Rules) uint64 { return a.Compute }
 
 func (a *ScriptAction) StateKeys(codec.Address, ids.ID) state.Keys {
+	if a.SleepKeys > 0 {
+		time.Sleep(time.Duration(a.SleepKeys) * time.Millisecond)
+	}
 	ks := make(state.Keys)
 	for i, k := range a.Keys {
 		// later declarations of the same key inside ONE action overwrite (a Go map literal would do the same);
@@ -73,6 +82,9 @@ func (a *ScriptAction) StateKeys(codec.Address, ids.ID) state.Keys {
 func (a *ScriptAction) ValidRange(hchain.Rules) (int64, int64) { return a.Start, a.End }
 
 func (a *ScriptAction) Execute(ctx context.Context, _ hchain.Rules, mu state.Mutable, _ int64, _ codec.Address, _ ids.ID) ([]byte, error) {
+	if a.SleepExec > 0 {
+		time.Sleep(time.Duration(a.SleepExec) * time.Millisecond)
+	}
 	out := []byte{}
 	for _, op := range a.Ops {
 		switch op.Kind {
